@@ -560,11 +560,25 @@ Example: `$var = (const) $(my_int)`""",
                         old_tokens[2:] if old_tokens is not None else tokens[2:],
                         tokenizer,
                         datapack,
-                        is_execute,
+                        False,  # a statement of several commands is wrapped as a whole by the caller
                         FuncContent,
                         first_arguments,
                         prefix,
                     )
+                    if "\n" in inner_command or not inner_command:
+                        # `execute store ... run` takes exactly ONE command: an inner statement that needs
+                        # several commands (or none) runs first, then its target is copied
+                        inner_player = find_scoreboard_player_type(
+                            right_token, tokenizer, allow_integer=False
+                        )
+                        assert isinstance(inner_player.value, tuple)
+                        return DebugWatch.variable_operation_wrapper(
+                            (inner_command + "\n" if inner_command else "")
+                            + f"scoreboard players operation {left_token.string} {objective_name} = {inner_player.value[1]} {inner_player.value[0]}",
+                            left_token.string,
+                            objective_name,
+                            datapack,
+                        )
                     if inner_command.startswith("execute store"):
                         # merge `run execute store` at the junction only
                         # len("execute ") = 8
